@@ -64,6 +64,19 @@ def main():
            "| check | mutant | file | result (first buckets) | s |", "|---|---|---|---|---|"]
     out += ["| %s | %s | %s | %s | %.0f |" % (a, b.replace("|", "/"), c, d.replace("|", "/")[:200], e) for a, b, c, d, e in rows]
     open(os.path.join(HERE, "mutants", "AUDIT.md"), "w").write("\n".join(out) + "\n")
+  else:
+    # a partial audit replaces its rows in the committed table, if any
+    ap = os.path.join(HERE, "mutants", "AUDIT.md")
+    if os.path.exists(ap):
+      new = {(a, b.replace("|", "/")): "| %s | %s | %s | %s | %.0f |" % (a, b.replace("|", "/"), c, d.replace("|", "/")[:200], e) for a, b, c, d, e in rows}
+      lines = open(ap).read().splitlines()
+      for i, l in enumerate(lines):
+        f = [x.strip() for x in l.split("|")]
+        if len(f) > 3 and (f[1], f[2]) in new:
+          lines[i] = new[(f[1], f[2])]
+      body = [l for l in lines if l.startswith("| C")]
+      lines = [("%d mutants, %d killed." % (len(body), sum("| KILLED" in l for l in body))) if l.endswith(" killed.") and " mutants, " in l else l for l in lines]
+      open(ap, "w").write("\n".join(lines) + "\n")
   return 1 if bad else 0
 
 if __name__ == "__main__":
